@@ -141,6 +141,15 @@ def base_universe(fx_bytes=4000, mx=1, rulesets=("all", "format"), rc_rulesets=(
             c["id"] += f"|rules={c['rules']}"
             c["stratum"] += f"|{c['rules']}"
             u.append(c)
+    # width sweep: lines whose length straddles max_line_length once another rule has inserted tokens
+    # (implicit alias -> AS, JOIN -> INNER JOIN, ...): interplay of measuring and re-breaking rules
+    for n in range(50, 80):
+        for t, tpl in enumerate((
+            "SELECT\n    c + 1 AS d,\n    {A} + bbbbbb xx\nFROM tbl\n",
+            "SELECT {A} AS x, b yy FROM tbl t JOIN other u ON t.id = u.id\n",
+            "SELECT\n    a,\n    {A} zz\nFROM tbl t1\nJOIN u ON t1.id = u.id\nWHERE {A} > 1\n",
+        )):
+            u.append({"id": f"ws:{t}:{n}|rules=all", "kind": "lit", "source": tpl.replace("{A}", "a" * n), "dialect": "ansi", "rules": "all", "stratum": f"ws:{t}"})
     if feu:
         # fix_even_unparsable switches the whole-file validation of fixes off: parsable inputs must stay parsable
         for i, c in enumerate(common.fx_cases(fx_bytes, dialects)):
